@@ -193,13 +193,6 @@ func flight4Parse(
 		cfg.WriteKeyLog(keyLogLabel, clientRandom[:], state.MasterSecret)
 	}
 
-	if len(state.SessionID) > 0 {
-		cfg.Log.Tracef("[handshake] save new session: %x", state.SessionID)
-		if err := cfg.SetSession(state.SessionID, state.SessionID, state.MasterSecret); err != nil {
-			return 0, &alert.Alert{Level: alert.Fatal, Description: alert.InternalError}, err
-		}
-	}
-
 	// Now, encrypted packets can be handled
 	if err := conn.HandleQueuedPackets(ctx); err != nil {
 		return 0, &alert.Alert{Level: alert.Fatal, Description: alert.InternalError}, err
@@ -243,7 +236,7 @@ func flight4Parse(
 			}
 		}
 
-		return Flight6, nil, nil
+		return flight4SaveSession(state, cfg)
 	}
 
 	switch cfg.ClientAuth {
@@ -268,6 +261,22 @@ func flight4Parse(
 	if cfg.VerifyConnection != nil {
 		if err := cfg.VerifyConnection(state); err != nil {
 			return 0, &alert.Alert{Level: alert.Fatal, Description: alert.BadCertificate}, err
+		}
+	}
+
+	return flight4SaveSession(state, cfg)
+}
+
+// flight4SaveSession stores the session for resumption and moves on to Flight6. It
+// runs only after the client's Finished, the client-authentication policy and
+// the VerifyConnection callback have all passed: a session stored earlier could be
+// resumed (Flight4b checks nothing but the Finished over the stored secret) by a
+// peer whose original handshake was never completed or was refused.
+func flight4SaveSession(state *dtlsstate.State12, cfg *dtlsconfig.HandshakeConfig) (Flight, *alert.Alert, error) {
+	if len(state.SessionID) > 0 {
+		cfg.Log.Tracef("[handshake] save new session: %x", state.SessionID)
+		if err := cfg.SetSession(state.SessionID, state.SessionID, state.MasterSecret); err != nil {
+			return 0, &alert.Alert{Level: alert.Fatal, Description: alert.InternalError}, err
 		}
 	}
 
